@@ -15,6 +15,7 @@ import (
 	"testing/synctest"
 	"time"
 
+	"github.com/dgraph-io/badger/v4/options"
 	"github.com/dgraph-io/badger/v4/table"
 	"github.com/dgraph-io/badger/v4/y"
 )
@@ -110,6 +111,20 @@ func lsmOpts(x *seqExec) Options {
 	o.LmaxCompaction = true
 	if x.j.Bool("inmemory", false) {
 		o.InMemory, o.Dir, o.ValueDir = true, "", ""
+	}
+	switch x.j.Str("compression", "") {
+	case "snappy":
+		o.Compression = options.Snappy
+		o.BlockCacheSize = 1 << 20
+	case "zstd":
+		o.Compression = options.ZSTD
+		o.ZSTDCompressionLevel = 1
+		o.BlockCacheSize = 1 << 20
+	}
+	if x.j.Bool("encrypt", false) {
+		o.EncryptionKey = []byte("0123456789abcdef")
+		o.BlockCacheSize = 1 << 20
+		o.IndexCacheSize = 1 << 20
 	}
 	return o
 }
